@@ -51,10 +51,13 @@ Theorem C08_file_roundtrip : forall A name (body : reader A) rs a,
 Proof. exact @nf_roundtrip. Qed.
 Print Assumptions C08_file_roundtrip.
 
-(* an empty vector record followed by more data is NOT read back: the line reader takes the next data line *)
-Theorem C08_empty_vector_refuted :
-  nf_read "T" (v <- rd_vdbl 0 ;; x <- rd_int ;; ret (v, x)) (lex (print (nf_write "T" [r_vdbl "V" []; r_int "n" 7]))) = None.
-Proof. exact empty_vector_not_read. Qed.
+(* regression (fix C08_12): an empty vector record followed by more data is read back as the empty vector (the line
+   reader used to take the next data line) *)
+Theorem C08_empty_vector_cured :
+  nf_read "T" (v <- rd_vdbl 0 ;; x <- rd_int ;; ret (v, x)) (lex (print (nf_write "T" [r_vdbl "V" []; r_int "n" 7]))) = Some ([], 7).
+Proof. exact empty_vector_read_back. Qed.
+Theorem C08_empty_vector_reads : forall A (p : word -> option A) t, reads (rd_vec p 0) [RVec t []] [].
+Proof. exact @reads_vec_nil. Qed.
 
 (* ======================================================================= layer 2: classes *)
 (* reload name ser deser o = nf_read name deser (lex (print (nf_write name (ser o)))) ; file = print (nf_write ...) *)
